@@ -48,8 +48,8 @@ def _plan(draw, max_len):
     kind = draw(st.sampled_from(kinds))
     n = draw(st.one_of(st.sampled_from([0, 1, 2]), st.integers(0, max_len)))
     pool = list(POOLS[kind])
-    if kind == "f" and h in ORD:
-        pool = pool + [gen.INF, -gen.INF]
+    if kind == "f" and (h in ORD or h == "median"):
+        pool = pool + [gen.INF, -gen.INF]          # order statistics and the median are well defined with infinities
     narrow = draw(st.booleans())
     if narrow:
         pool = pool[:3]
@@ -148,7 +148,9 @@ def ref(h, kind, vals, args):
             return MISSING
         if h == "mean":
             return model.t_mean(fl)
-        return model.t_quantile(fl, 0.5 if h == "median" else args["q"])
+        if h == "median":
+            return model.t_median(fl)              # middle element / mean of the two middle elements
+        return model.t_quantile(fl, args["q"])
     if h in ("std", "var"):
         if len(fl) < 2 or na_in:
             return MISSING
